@@ -12,14 +12,19 @@ RULE = ("(1) PLAN: the real gamedig_cli binary built with the verification hook 
         "typed flag at its boundary values, every presence pattern of the two flattened flag groups, every mode x format — go to the binary and to the model "
         "of main (driver entry `cli-plan`, Proto/CliPlan.lean) and must give the same plan or the same way out; oracle on the binary alone: exit rules of the "
         "property and the hand-over of every flag value. (2) MIRRORS: the model's IP-literal parser, hex / base64 codecs, JSON printer (compact, pretty) and JSON "
-        "reader against std / hex / base64 / serde_json in the harness on generated and damaged inputs. (3) WRITERS: the real binary's output_result_* on values "
+        "reader against std / hex / base64 / serde_json in the harness on generated and damaged inputs; the model's BSON serialiser and reader "
+        "(`bson-enc` / `bson-dec`) against bson::to_vec / bson::RawDocument on every Rust integer type at its limits, u64 above i64::MAX, every kind of f64, empty / long / "
+        "non-ASCII strings, odd keys and keys with NUL, nesting to depth 120, arrays of 0-2500 items, non-documents at the top, and on documents of an independent writer, "
+        "whole and damaged. (3) WRITERS: the real binary's output_result_* on values "
         "of every shape (print hook): JSON / pretty JSON / XML byte for byte = the model's, BSON-hex / BSON-base64 decoded by the model's decoders = Python's, the "
-        "BSON inside = the value. (4) END TO END: the shipped binary (no hook) against in-process loopback UDP servers replaying SPEC-generated "
+        "BSON inside = the model's serialiser on the value byte for byte, and read by the model's BSON reader and by a Python walker = the value (maps whose only key "
+        "is an extended-JSON marker included). (4) END TO END: the shipped binary (no hook) against in-process loopback UDP servers replaying SPEC-generated "
         "exchanges of Valve games (names, maps, rule keys and values with markup, control and non-ASCII characters; rule keys that are not "
         "XML names are injected) x 2 output modes x 6 formats; stdout must be one well-formed document: JSON read by Python AND by the model's reader and compared "
         "with the library's own response (obtained in-process through the harness on the same exchange), reprinted by the model's printer byte for byte; generic "
         "mode = the C15 accessor tables evaluated by the model on the protocol-specific value, byte for byte; XML compared byte for byte with the Lean "
-        "model's rendering of that JSON value (and parsed), BSON (hex / base64) decoded by the model's decoders and by an independent walker and compared; exit status 0. "
+        "model's rendering of that JSON value (and parsed), BSON (hex / base64) decoded by the model's decoders, read by the model's BSON reader and by an independent walker and compared with the "
+        "library's response and with the JSON document of the same invocation; exit status 0. "
         "Invalid invocations of each kind (unknown game, unresolvable host, silent server, bad flag values) must exit non-zero with a message "
         "and no panic. Distinct = distinct outputs.")
 ASSUMPTIONS = ["clap's tokenisation of argv, the system resolver, serde's derive output, serde_json / quick-xml / bson succeeding or failing, and the Debug text are parameters "
@@ -28,8 +33,8 @@ ASSUMPTIONS = ["clap's tokenisation of argv, the system resolver, serde's derive
                "the Debug format is only checked for being printed (it has no grammar to validate)",
                "BSON's binary layout (bson::to_vec) is modelled (Proto/CliBson.lean) and compared with the crate on every run; serde handing each field over in its "
                "Rust type (derive output) stays a parameter"]
-TRUSTED = ["Lean model of main (Proto/CliPlan.lean), of the JSON documents and their reader (Proto/CliJson.lean), of hex / base64 (Proto/CliCodec.lean) and of the JSON→XML "
-           "converter (Proto/Cli.lean); theorems in Props/C19.lean, C19_cli.lean, C14_cli.lean, C18_cli.lean; tied to the binary by the plan hook, the print hook and "
+TRUSTED = ["Lean model of main (Proto/CliPlan.lean), of the JSON documents and their reader (Proto/CliJson.lean), of hex / base64 (Proto/CliCodec.lean), of BSON's layout (Proto/CliBson.lean) and of the JSON→XML "
+           "converter (Proto/Cli.lean); theorems in Props/C19.lean, C19_cli.lean, C19_bson.lean, C14_cli.lean, C18_cli.lean; tied to the binary by the plan hook, the print hook and "
            "byte-exact comparison of the documents"]
 
 CLI_TARGET = os.path.join(vlib.WORK, "cli-target")
@@ -927,4 +932,5 @@ def run(rep, tier, seed, replay=None):
     silent.close()
     rep.extra_cov["explanation"] = ("main from the flag values to the process outcome, the JSON documents with their reader, hex / base64 and the XML converter are Lean "
                                     "models with theorems (plan, every way out, no panic, the document decodes to the value, generic = common view); serde's derive "
-                                    "output, the serialiser crates' success, BSON's layout, the resolver and the process itself are exercised by running the real binary")
+                                    "output, the serialiser crates' success, the resolver and the process itself are exercised by running the real binary; BSON's layout is a "
+                                    "Lean model with theorems (reader inverts serialiser, failure cases, length fields) tied to the crate")
